@@ -311,9 +311,16 @@ _mod_opts_ok(mod_t mod)
 static int
 _cmp_f (mod_t x, mod_t y)
 {
-    if (x->priority == y->priority)
-        return strcmp (x->pmod->name, y->pmod->name);
-    return (y->priority - x->priority);
+    int c;
+
+    if (x->priority != y->priority)
+        return (y->priority - x->priority);
+    if ((c = strcmp (x->pmod->name, y->pmod->name)) != 0)
+        return c;
+    /*  Same priority and name: order by type, so that the order of the list
+     *   does not depend on the order in which readdir() returned the files.
+     */
+    return strcmp (x->pmod->type, y->pmod->type);
 }
 
 
@@ -715,7 +722,12 @@ static int _mod_register (mod_t mod, const char *name)
         err("%p: %s: [%s/%s] already loaded from [%s]\n",
                 mod->filename, mod->pmod->type, mod->pmod->name,
                 prev->filename);
-        if (mod->priority > prev->priority)
+        /*  Equal priority: keep the module with the smaller file name,
+         *   whichever was found first.
+         */
+        if (mod->priority > prev->priority
+            || (mod->priority == prev->priority
+                && strcmp (mod->filename, prev->filename) < 0))
             _mod_delete (mod->pmod->type, mod->pmod->name);
         else
             return (-1);
